@@ -68,6 +68,44 @@ type callT struct {
 	Sig   string `json:"sig"`
 	Input string `json:"input"`
 	Beh   string `json:"beh"`
+	// set by the harness from the case's layout: the step exists in the harness's universe but is not
+	// registered in this session's schema - a call on it is a call on an unknown step
+	Unreg bool `json:"-"`
+}
+
+// layoutT: how a session's schema is put together (Steps.tla: layout)
+type layoutT struct {
+	reg    []string          // registered steps
+	sigreg map[string]string // step -> "same" | "differ": the signal's own ID is / is not its registration key
+}
+
+const ownSigID = "sigown"
+
+func defaultLayout() layoutT {
+	l := layoutT{reg: append([]string{}, stepIDs...), sigreg: map[string]string{}}
+	for _, id := range stepIDs {
+		l.sigreg[id] = "same"
+	}
+	return l
+}
+
+// markUnreg sets Unreg on the calls that name a step the layout does not register.
+func (l layoutT) markUnreg(calls []callT) {
+	for i := range calls {
+		calls[i].Unreg = contains(stepIDs, calls[i].Step) && !contains(l.reg, calls[i].Step)
+	}
+}
+
+// the concrete IDs a call on an unknown step (class "nostep") names
+var unknownStepIDs = []struct{ name, id string }{{"unknown", "nope"}, {"empty", ""}, {"miscased", "S1"},
+	{"trailing-space", "s1 "}, {"step-dot-output", "s1.success"}}
+
+// signalID: the ID the harness gives the signal registered under the key sigID on this step
+func (l layoutT) signalID(step string) string {
+	if l.sigreg[step] == "differ" {
+		return ownSigID
+	}
+	return sigID
 }
 
 type histT struct {
@@ -102,6 +140,8 @@ type caseT struct {
 	MapSteps []string                  `json:"mapsteps"`
 	Shorts   []string                  `json:"shortsteps"`
 	Display  map[string]string         `json:"display"`
+	Reg      []string                  `json:"reg"`
+	SigReg   map[string]string         `json:"sigreg"`
 	Variants []int                     `json:"variants"`
 	Seed     int64                     `json:"seed"`
 	Sessions int                       `json:"sessions"`
@@ -901,6 +941,7 @@ func formTables() map[string]int {
 	for _, c := range []string{"va", "vb", "vs", "inv"} {
 		t["short/"+c] = len(shortForms[shortClass(c)])
 	}
+	t["stepid/unknown"] = len(unknownStepIDs)
 	return t
 }
 
@@ -1062,6 +1103,7 @@ type proc struct {
 	begun   bool
 	rng     *rand.Rand
 	form    string     // the concrete raw input form used (set by the call's goroutine before it returns)
+	idform  string     // the concrete ID used for a call on an unknown step
 	oform   string     // the concrete handler output form used (map-based step; set by the call's goroutine)
 	short   *shortForm // the concrete raw input form of a call on a single-property step
 }
@@ -1080,6 +1122,7 @@ type session struct {
 	anomal  []string
 	shape   string            // shape of the single-property scopes of this session
 	display map[string]string // step -> display shape
+	layout  layoutT
 }
 
 func goid() int64 {
@@ -1093,8 +1136,9 @@ func goid() int64 {
 	return id
 }
 
-func newSession(calls []callT, gated bool, seed int64, variant int, variants []int, display map[string]string) *session {
-	s := &session{display: display, byGoid: map[int64]*proc{}, gated: gated, free: make(chan struct{}), arriv: make(chan *event, 16*len(calls)+16)}
+func newSession(calls []callT, gated bool, seed int64, variant int, variants []int, display map[string]string, layout layoutT) *session {
+	layout.markUnreg(calls)
+	s := &session{display: display, layout: layout, byGoid: map[int64]*proc{}, gated: gated, free: make(chan struct{}), arriv: make(chan *event, 16*len(calls)+16)}
 	for i, c := range calls {
 		v := variant + i
 		if len(variants) == len(calls) && variants[i] >= 0 {
@@ -1115,7 +1159,9 @@ func newSession(calls []callT, gated bool, seed int64, variant int, variants []i
 	}
 	var steps []schema.CallableStep
 	for _, id := range stepIDs {
-		steps = append(steps, s.buildStep(id))
+		if contains(layout.reg, id) {
+			steps = append(steps, s.buildStep(id))
+		}
 	}
 	s.schema = schema.NewCallableSchema(steps...)
 	return s
@@ -1144,7 +1190,7 @@ func (s *session) disp(id string) schema.Display { return displayOf(s.display[id
 // buildShort builds a step without initializer (step data type any) whose input and signal data objects have
 // exactly one property; T is the type the shape unserializes to.
 func buildShort[T any](s *session, id string) schema.CallableStep {
-	sig := schema.NewCallableSignal[any, T](sigID, shortScope(s.shape, "sigdata"), s.disp(id),
+	sig := schema.NewCallableSignal[any, T](s.layout.signalID(id), shortScope(s.shape, "sigdata"), s.disp(id),
 		func(ctx context.Context, d any, in T) { s.shortHandler(ctx, "signal", id, d, any(in)) })
 	return schema.NewCallableStepWithSignals[any, T](id, shortScope(s.shape, "input"), outputs(),
 		map[string]schema.CallableSignal{sigID: sig}, nil, s.disp(id), nil,
@@ -1170,7 +1216,7 @@ func (s *session) buildStep(id string) schema.CallableStep {
 		}
 	}
 	if mapSteps[id] {
-		sig := schema.NewCallableSignal[*sdata, map[string]any](sigID, mapSigScope(), s.disp(id),
+		sig := schema.NewCallableSignal[*sdata, map[string]any](s.layout.signalID(id), mapSigScope(), s.disp(id),
 			func(ctx context.Context, d *sdata, in map[string]any) { s.mapSignalHandler(ctx, id, d, in) })
 		return schema.NewCallableStepWithSignals[*sdata, map[string]any](id, mapInScope(), mapOutputs(),
 			map[string]schema.CallableSignal{sigID: sig}, nil, s.disp(id),
@@ -1180,13 +1226,13 @@ func (s *session) buildStep(id string) schema.CallableStep {
 			})
 	}
 	if noInit[id] {
-		sig := schema.NewCallableSignal[any, sigIn](sigID, sigScope(), s.disp(id),
+		sig := schema.NewCallableSignal[any, sigIn](s.layout.signalID(id), sigScope(), s.disp(id),
 			func(ctx context.Context, d any, in sigIn) { s.signalHandler(ctx, id, d, in) })
 		return schema.NewCallableStepWithSignals[any, stepIn](id, inScope(), outputs(),
 			map[string]schema.CallableSignal{sigID: sig}, nil, s.disp(id), nil,
 			func(ctx context.Context, d any, in stepIn) (string, any) { return s.stepHandler(ctx, id, d, in) })
 	}
-	sig := schema.NewCallableSignal[*sdata, sigIn](sigID, sigScope(), s.disp(id),
+	sig := schema.NewCallableSignal[*sdata, sigIn](s.layout.signalID(id), sigScope(), s.disp(id),
 		func(ctx context.Context, d *sdata, in sigIn) { s.signalHandler(ctx, id, d, in) })
 	return schema.NewCallableStepWithSignals[*sdata, stepIn](id, inScope(), outputs(),
 		map[string]schema.CallableSignal{sigID: sig}, nil, s.disp(id),
@@ -1464,11 +1510,16 @@ func (s *session) runCall(p *proc) {
 	var err error
 	raw, form := rawFor(p)
 	p.form = form
+	stepID := p.call.Step
+	if stepID == noStep {
+		u := unknownStepIDs[abs(p.variant)%len(unknownStepIDs)]
+		stepID, p.idform = u.id, "stepid/"+p.call.Kind+"/unknown/"+u.name
+	}
 	pi := sup.Guard(func() {
 		if p.call.Kind == "step" {
-			outID, outData, err = s.schema.CallStep(ctx, p.call.Run, p.call.Step, raw)
+			outID, outData, err = s.schema.CallStep(ctx, p.call.Run, stepID, raw)
 		} else {
-			err = s.schema.CallSignal(ctx, p.call.Run, p.call.Step, p.call.Sig, raw)
+			err = s.schema.CallSignal(ctx, p.call.Run, stepID, p.call.Sig, raw)
 		}
 	})
 	if pi != nil {
@@ -1500,7 +1551,7 @@ func (s *session) runCall(p *proc) {
 func situation(c callT) string {
 	known := false
 	for _, id := range stepIDs {
-		if c.Step == id {
+		if c.Step == id && !c.Unreg {
 			known = true
 		}
 	}
@@ -1598,7 +1649,11 @@ func judge(s *session, r *resT) int {
 		}
 	}
 	det := func(p *proc, more map[string]any) map[string]any {
-		d := map[string]any{"p": p.id, "call": p.call, "variant": p.variant, "form": p.form}
+		d := map[string]any{"p": p.id, "call": p.call, "variant": p.variant, "form": p.form,
+			"registered_steps": s.layout.reg, "signal_registration": s.layout.sigreg}
+		if p.idform != "" {
+			d["step_id_form"] = p.idform
+		}
 		if len(s.display) > 0 {
 			d["display"] = s.display
 		}
@@ -1628,6 +1683,9 @@ func judge(s *session, r *resT) int {
 		}
 		if p.oform != "" {
 			r.Forms = append(r.Forms, p.oform)
+		}
+		if p.idform != "" {
+			r.Forms = append(r.Forms, p.idform)
 		}
 		c := p.call
 		sit := situation(c)
@@ -1788,6 +1846,24 @@ func goroutineDump() string {
 }
 
 func runReplay(c caseT, r *resT) {
+	layout := defaultLayout()
+	if len(c.Reg) > 0 {
+		layout.reg = c.Reg
+	}
+	for id, g := range c.SigReg {
+		if (g != "same" && g != "differ") || !contains(stepIDs, id) {
+			r.BindError = "signal registration " + g + " of step " + id + " is not in the harness's table"
+			return
+		}
+		layout.sigreg[id] = g
+	}
+	for _, id := range layout.reg {
+		if !contains(stepIDs, id) {
+			r.BindError = "registered step " + id + " is not in the harness's table"
+			return
+		}
+	}
+	layout.markUnreg(c.Calls)
 	// binding: the harness's reading of the situations must agree with the specification's outcome
 	for i, cl := range c.Calls {
 		if i < len(c.Res) && specClass(cl, situation(cl)) != c.Res[i].Class {
@@ -1842,7 +1918,7 @@ func runReplay(c caseT, r *resT) {
 			return
 		}
 	}
-	s := newSession(c.Calls, true, 1, variant%12, c.Variants, c.Display)
+	s := newSession(c.Calls, true, 1, variant%12, c.Variants, c.Display, layout)
 	for _, p := range s.procs {
 		go s.runCall(p)
 	}
@@ -2146,7 +2222,23 @@ func runRandom(c caseT, r *resT) {
 			dmap[id] = displayShapes[rng.Intn(len(displayShapes))]
 			display[id] = dmap[id]
 		}
-		s := newSession(calls, false, c.Seed*100003+int64(k), rng.Intn(1<<16), nil, dmap)
+		layout := defaultLayout()
+		if rng.Intn(4) == 0 { // a schema with exactly one step
+			layout.reg = []string{stepIDs[rng.Intn(len(stepIDs))]}
+		}
+		sigreg := map[string]any{}
+		for _, id := range stepIDs {
+			if rng.Intn(3) == 0 {
+				layout.sigreg[id] = "differ"
+			}
+			sigreg[id] = layout.sigreg[id]
+		}
+		for i := range calls {
+			if calls[i].Kind == "signal" && calls[i].Sig == "nosig" && rng.Intn(2) == 0 {
+				calls[i].Sig = ownSigID // the signal's own ID where it differs from the key: unknown all the same
+			}
+		}
+		s := newSession(calls, false, c.Seed*100003+int64(k), rng.Intn(1<<16), nil, dmap, layout)
 		for _, p := range s.procs {
 			go s.runCall(p)
 		}
@@ -2176,7 +2268,8 @@ func runRandom(c caseT, r *resT) {
 			continue
 		}
 		r.Clean++
-		r.Trace = append(r.Trace, map[string]any{"ev": "reset", "calls": calls, "display": display})
+		r.Trace = append(r.Trace, map[string]any{"ev": "reset", "calls": calls, "display": display,
+			"reg": append([]string{}, layout.reg...), "sigreg": sigreg})
 		r.Trace = append(r.Trace, logLines(s.log)...)
 		for _, cl := range calls {
 			k := cl.Kind + "/" + situation(cl) + "/" + cl.Beh
